@@ -313,7 +313,8 @@ def handlePos (site aux : String) : String :=
          | .error e => enumErrLabel e)
   | _ => "unsupported: the position is outside the model"
 
-/-- `<cls>[!] <refs> <tree...>` → (member, exact type recorded, referenced enumerators) -/
+/-- `<cls>[!] <refs> <tree...>` → (member, the static type of the initialiser is the plain type of its value, referenced
+enumerators); the last two are annotations of the harness the model does not need -/
 def parseMemberFull (s : String) : Option (Member × Bool × List Nat) :=
   if s == "-" then some (none, true, []) else
   match s.splitOn " " with
@@ -324,31 +325,16 @@ def parseMemberFull (s : String) : Option (Member × Bool × List Nat) :=
     pure (some (cls, e), !c.endsWith "!", refs)
   | _ => none
 
-/-- per enumerator: is the type recorded for it the plain type of the literal a later reference becomes?  An
-initialiser of const-qualified or enum type records that type (flag from the harness); an enumerator without initialiser
-inherits the recorded type of its predecessor, except after a `bool` value, where it is a fresh `int`. -/
-def exactFlags (prev : Option (Bool × Bool)) : List (Member × Bool × List Nat) → List Bool
-  | [] => []
-  | (some (cls, _), ex, _) :: r => ex :: exactFlags (some (ex, cls == .scalar .Bool)) r
-  | (none, _, _) :: r =>
-    let ex := match prev with | none => true | some (pe, pb) => if pb then true else pe
-    ex :: exactFlags (some (ex, false)) r
-
-def refsInexact (ms : List (Member × Bool × List Nat)) : Bool :=
-  let exact := exactFlags none ms
-  ms.any fun m => m.2.2.any fun k => !(exact.getD k true)
-
 def handleEnum (aux : String) : String :=
   match (aux.splitOn " | ").mapM parseMemberFull with
   | none => "bad-request"
   | some ms =>
-    if refsInexact ms then
-      "unsupported: reference to an enumerator whose recorded type differs from the literal's (debug self-check of parse_expr_internal, outside the model)"
-    else
-      match defineEnum (ms.map (·.1)) with
-      | .ok (u, vals) =>
-        "under:" ++ (if u == .UInt32 then "uint" else "int") ++ " vals:" ++ ",".intercalate (vals.map showConst)
-      | .error e => enumErrLabel e
+    -- a reference to an earlier enumerator is the literal of its evaluated constant (`Gen.PosTable.enumRecordsValueType`:
+    -- the type recorded with an enumerator is the type of that constant), whatever the static type of its initialiser was
+    match defineEnum (ms.map (·.1)) with
+    | .ok (u, vals) =>
+      "under:" ++ (if u == .UInt32 then "uint" else "int") ++ " vals:" ++ ",".intercalate (vals.map showConst)
+    | .error e => enumErrLabel e
 
 def handle (op : String) (args : List String) : String :=
   match op, args with
